@@ -151,6 +151,102 @@ def _normalise_inline_splat(tree):
         n.keywords = out
 
 
+_MODNAMES = None
+
+
+def _ref_module_names(rel):
+  """Names bound at module level in `rel` on the reference tree (None when the table has no entry for the file)."""
+  global _MODNAMES
+  if _MODNAMES is None:
+    try:
+      import json
+      with open(os.path.join(os.path.dirname(os.path.abspath(__file__)), 'reference.json')) as fh:
+        _MODNAMES = json.load(fh).get('__module_names__', {})
+    except (OSError, ValueError):
+      _MODNAMES = {}
+  return _MODNAMES.get(rel)
+
+
+def module_level_names(tree):
+  out = set()
+  for st in tree.body:
+    for n in ast.walk(st) if isinstance(st, (ast.Assign, ast.AnnAssign, ast.AugAssign, ast.Import, ast.ImportFrom)) else []:
+      if isinstance(n, ast.Name) and isinstance(n.ctx, ast.Store):
+        out.add(n.id)
+      elif isinstance(n, ast.alias):
+        out.add((n.asname or n.name).split('.')[0])
+    if isinstance(st, (ast.FunctionDef, ast.AsyncFunctionDef, ast.ClassDef)):
+      out.add(st.name)
+  return out
+
+
+def _literal_const(e):
+  if isinstance(e, ast.Constant) and isinstance(e.value, (str, int, float, bool, type(None), bytes)):
+    return True
+  if isinstance(e, ast.UnaryOp) and isinstance(e.op, ast.USub) and isinstance(e.operand, ast.Constant) and isinstance(e.operand.value, (int, float)):
+    return True
+  if isinstance(e, ast.Tuple) and e.elts and all(_literal_const(x) for x in e.elts):
+    return True
+  return False
+
+
+def _normalise_new_constants(tree, rel):
+  """A module-level `NAME = <literal>` that does not exist on the reference tree (a constant hoisted out of the code by a
+  tidy-up) is spelled out again at its uses, so that `f'{prefix}{_TMP}'`, `self.make_rng(_PARAMS)` read as on the reference tree.
+  Constants the reference tree already has keep their names (rules refer to them)."""
+  known = _ref_module_names(rel)
+  if known is None:
+    return
+  known = set(known)
+  consts = {}
+  counts = {}
+  for st in tree.body:
+    if isinstance(st, ast.Assign) and len(st.targets) == 1 and isinstance(st.targets[0], ast.Name):
+      counts[st.targets[0].id] = counts.get(st.targets[0].id, 0) + 1
+      if _literal_const(st.value) and st.targets[0].id not in known:
+        consts[st.targets[0].id] = st.value
+    elif isinstance(st, ast.AnnAssign) and isinstance(st.target, ast.Name) and st.value is not None:
+      counts[st.target.id] = counts.get(st.target.id, 0) + 1
+      if _literal_const(st.value) and st.target.id not in known:
+        consts[st.target.id] = st.value
+  consts = {k: v for k, v in consts.items() if counts.get(k) == 1}
+  if not consts:
+    return
+  # never touch a function that binds the name itself (parameter, local, global statement)
+  rebinders = set()
+  for fn in [n for n in ast.walk(tree) if isinstance(n, (ast.FunctionDef, ast.AsyncFunctionDef, ast.Lambda))]:
+    a = fn.args
+    bound = {x.arg for x in a.posonlyargs + a.args + a.kwonlyargs} | ({a.vararg.arg} if a.vararg else set()) | ({a.kwarg.arg} if a.kwarg else set())
+    for n in ast.walk(fn):
+      if isinstance(n, ast.Name) and isinstance(n.ctx, (ast.Store, ast.Del)):
+        bound.add(n.id)
+      elif isinstance(n, (ast.Global, ast.Nonlocal)):
+        bound.update(n.names)
+    if bound & set(consts):
+      rebinders.add(id(fn))
+
+  class T(ast.NodeTransformer):
+    def __init__(self):
+      self.block = 0
+
+    def _fn(self, node):
+      b = id(node) in rebinders
+      self.block += b
+      self.generic_visit(node)
+      self.block -= b
+      return node
+    visit_FunctionDef = visit_AsyncFunctionDef = visit_Lambda = _fn
+
+    def visit_Name(self, node):
+      if isinstance(node.ctx, ast.Load) and node.id in consts and not self.block:
+        return ast.copy_location(copy.deepcopy(consts[node.id]), node)
+      return node
+  for i, st in enumerate(tree.body):
+    if isinstance(st, (ast.FunctionDef, ast.AsyncFunctionDef, ast.ClassDef)):
+      tree.body[i] = T().visit(st)
+  ast.fix_missing_locations(tree)
+
+
 def _normalise_named_splat(tree):
   """`opts = dict(k=v, j=w)` ... `f(a, **opts)` -> `f(a, k=v, j=w)` when `opts` is bound once in its function and only ever used as
   a `**opts` argument there (the shape a "collect the shared keywords in a dict" refactoring produces).  The rules then see the
@@ -303,6 +399,7 @@ class Mod:
     except SyntaxError as e:
       raise AnalysisError('unparsable file %s: %s' % (rel, e))
     _normalise_nested_names(self._tree, rel)
+    _normalise_new_constants(self._tree, rel)
     _normalise_inline_splat(self._tree)
     _normalise_named_splat(self._tree)
     _normalise_polarity(self._tree)
